@@ -3,3 +3,10 @@ setup:
 	cd extractor && CARGO_NET_OFFLINE=true cargo build --release --offline
 	mkdir -p .build evidence replays
 .PHONY: setup
+
+# refresh baseline, evidence (from /repo itself) and MANIFEST before committing
+refresh:
+	./check all --update-baseline
+	./check all
+	python3 lib/mkmanifest.py
+.PHONY: refresh
